@@ -461,7 +461,31 @@ META["C16"] = {"files": ["value.c", "map.c", "packet.c", "utils.c", "parser.c", 
                "assumptions": ["malloc does not fail except in the C17-derived queries", "bounds of the originating harnesses"],
                "outside": ["code not reached by any listed query (parser productions, writer, cif_create/cif_destroy, to_double/to_digits kernels)", "sizes beyond the bounds"]}
 
-REG = {"C04": c04, "C16": c16, "C05": c05, "C06": c06, "C17": c17, "C20": c20, "C10": c10, "C18": c18, "C09": c09, "C08": c08, "C14": c14, "C19": c19, "C07": c07}
+
+# ------------------------------------------------------------------------------------------ C11
+def c11(tier):
+    qs = []
+    for mode in ("func", "safety"):
+        qs.append(Q("C11_cascade_%s" % mode, "h11_cascade.c", defs={"NBYTES": 12}, extra=ICU, unwind=14, unwindset=["strcmp.*:14", "memcmp.*:12", "memset.*:200"], mode=mode,
+                    replay=True, replay_libs=ICU_LIBS, native_extra=NATIVE_ICU, uthash="real",
+                    bounds={"leading bytes": "0..12 symbolic bytes", "prefer_cif2": "-2..21", "force_default_encoding / default_encoding_name / default converter": "symbolic"},
+                    note="cif_parse stage 1 (encoding + provisional version) vs decision table"))
+    for n, mode in [(k, "func") for k in ((0, 1, 2, 10, 11) if tier == "quick" else (0, 1, 2, 3, 9, 10, 11, 12))]:
+        qs.append(Q("C11_stage2_N%d_%s" % (n, mode), "h11_stage2.c", defs={"NIN": n, "CIF_API_VERIF_BUF_SIZE_INITIAL": 16, "CIF_API_VERIF_BUF_MIN_FILL": 1, "CIF_API_VERIF_LINE_LENGTH": 20}, replay=False,
+                    extra=ICU, libtus=["parser.c"], remove=[("parser.c", "__CPROVER_file_local_parser_c_parse_cif"), ("parser.c", "__CPROVER_file_local_parser_c_get_first_char"),
+                                                              ("parser.c", "__CPROVER_file_local_parser_c_get_more_chars")], unwind=n + 3,
+                    unwindset=["cif_parse_internal.*:170", "u_strncmp.*:12", "memmove.*:34", "memcpy.*:34", "harness.*:14"], mode=mode, replay_libs=ICU_LIBS, native_extra=NATIVE_ICU,
+                    bounds={"input": "%d symbolic 16-bit units" % n, "provisional version": "-2, 0, 1, 2", "not_utf8": "symbolic", "error callback": "accepts all or rejects the 1st / 2nd error"},
+                    note="cif_parse_internal stage 2 (magic comment, BOM, SET_V1, wrong-encoding) vs oracle; grammar replaced by a recorder"))
+    return qs
+
+
+META["C11"] = {"files": ["ciffile.c", "parser.c"], "functions": ["cif_parse", "cif_parse_internal", "get_first_char", "get_more_chars", "scan_to_ws"],
+               "stubs": ["fread (symbolic bytes)", "ucnv_detectUnicodeSignature (documented signature table)", "ucnv_open/getName/close/setToUCallBack (recorders)", "cif_create, cif_parse_internal (recorders)"],
+               "assumptions": ["ICU's signature detection follows its documentation"],
+               "outside": ["'the same text in any signed encoding yields the same content' (ICU converters)", "the system default encoding"]}
+
+REG = {"C04": c04, "C11": c11, "C16": c16, "C05": c05, "C06": c06, "C17": c17, "C20": c20, "C10": c10, "C18": c18, "C09": c09, "C08": c08, "C14": c14, "C19": c19, "C07": c07}
 
 
 def for_property(pid, tier):
@@ -576,3 +600,11 @@ MANI["C16"] = {
             "the storage-API harnesses for all engine outcomes; plus the numeric-locale harness (setlocale model, arbitrary entry locale).",
     "note": "covers the functions those harnesses reach within their bounds; parser productions, the writer and the float kernels "
             "are not reached (listed in evidence as outside); SQLite / ICU / uthash internals are stubs"}
+
+MANI["C11"] = {
+    "text": "Bounded model checking of the real cif_parse (encoding / provisional-version cascade) for all 12-byte prefixes x prefer_cif2 "
+            "-2..21 x force_default_encoding x default names against the documented decision table, and of the real cif_parse_internal "
+            "start-up (BOM, magic comment, version resolution, SET_V1, CIF_WRONG_ENCODING, rewind) for all inputs of <= 11-12 units.",
+    "note": "ICU converter API and signature detection are stubs (documented signature table); the grammar after start-up is a recorder; "
+            "'same text in any signed encoding yields the same content' is ICU's and not decided; U+FEFF after the first character "
+            "is covered by the scanner queries of C12 where listed"}
